@@ -15,7 +15,8 @@ LEVEL_TEXT = ('Held on the matches observed: (pattern, program) pairs come from 
               'aware), each paired child lies under the partner of its parent and list siblings keep their order (operands of + and * '
               'may swap), no two pattern siblings share a student node, every concrete pattern node has a partner, each _name_ is bound '
               'to one identifier everywhere, each __expr__ to exactly the node paired at its position, and match_root is the partner of '
-              'the pattern root. A pattern containing an identifier or literal that occurs nowhere in the program must return [].')
+              'the pattern root. A pattern containing an identifier or literal that occurs nowhere in the program must return []. The same '
+              'pattern asked again inside what it matched (nested constructs) is witness-checked too; programs are presented in seven ways.')
 LEVEL_NOTE = ('Documented flexibilities are not violations and are counted: the pattern\'s Module root and Expr statement wrappers '
               'may pair with any body-holding node / statement, `pass` is a statement wildcard, _function_() placeholders use the '
               'function table.')
